@@ -486,7 +486,26 @@ func zc43PipeSegment(c *zc43Call, call int) []byte {
 
 // zc43Run drives hist on server s; curUnit is advanced before each unit starts and
 // onUnitEnd is called when a unit's response is complete.
-func zc43Run(s *vgirpc.Server, hist []zc43Call, http bool, curUnit *int, onUnitEnd func(u *zc43Unit)) (units []*zc43Unit, escaped any) {
+// zc43AmbientCtx is the context handed INTO the dispatch: plain, or already carrying a sampled
+// span of an unrelated trace (a worker-lifetime span around ServeWithContext, an otelhttp span on
+// the HTTP request context).
+const (
+	zc43AmbientTraceID = "000000000000000000000000000000ee"
+	zc43AmbientSpanID  = "00000000000000dd"
+)
+
+func zc43AmbientCtx(ambient bool) context.Context {
+	ctx := context.Background()
+	if !ambient {
+		return ctx
+	}
+	tid, _ := trace.TraceIDFromHex(zc43AmbientTraceID)
+	sid, _ := trace.SpanIDFromHex(zc43AmbientSpanID)
+	sc := trace.NewSpanContext(trace.SpanContextConfig{TraceID: tid, SpanID: sid, TraceFlags: trace.FlagsSampled})
+	return trace.ContextWithSpanContext(ctx, sc)
+}
+
+func zc43Run(s *vgirpc.Server, hist []zc43Call, http, ambient bool, curUnit *int, onUnitEnd func(u *zc43Unit)) (units []*zc43Unit, escaped any) {
 	if !http {
 		var segs [][]byte
 		for i := range hist {
@@ -514,7 +533,7 @@ func zc43Run(s *vgirpc.Server, hist []zc43Call, http bool, curUnit *int, onUnitE
 					escaped = rv
 				}
 			}()
-			s.ServeWithContext(context.Background(), rd, &w)
+			s.ServeWithContext(zc43AmbientCtx(ambient), rd, &w)
 		}()
 		return units, escaped
 	}
@@ -525,6 +544,7 @@ func zc43Run(s *vgirpc.Server, hist []zc43Call, http bool, curUnit *int, onUnitE
 		*curUnit = len(units)
 		units = append(units, u)
 		req := httptest.NewRequest("POST", route, bytes.NewReader(body))
+		req = req.WithContext(zc43AmbientCtx(ambient))
 		req.Header.Set("Content-Type", "application/vnd.apache.arrow.stream")
 		tp, ts := c.headers(call)
 		if tp != "" {
@@ -617,7 +637,7 @@ func zc43Reference(hist []zc43Call, http bool) [][]zc43Dispatch {
 	ref := &zc43RefHook{unit: &cur, units: map[int][]zc43Dispatch{}}
 	s := zc43NewServer()
 	s.SetDispatchHook(ref)
-	units, _ := zc43Run(s, plain, http, &cur, func(*zc43Unit) {})
+	units, _ := zc43Run(s, plain, http, false, &cur, func(*zc43Unit) {})
 	out := make([][]zc43Dispatch, len(units))
 	for i := range units {
 		out[i] = ref.units[i]
@@ -641,11 +661,12 @@ func zc43SetGlobalPropagator(on bool) (restore func()) {
 
 func zc43Explore(t *testing.T, name string, maxDepth int, tpModes []int, globalProp bool) {
 	venum.Explore(t, venum.Cfg{Name: name, Shardable: true, CheckDeterminism: true}, func(x *venum.X) {
-		cfg := x.Choose(16, "config(transport x tracing x metrics x tracestate)")
+		cfg := x.Choose(32, "config(transport x tracing x metrics x tracestate x ambient-span)")
 		http := cfg&1 == 1
 		tracing := cfg&2 != 0
 		metrics := cfg&4 != 0
 		tstate := cfg&8 != 0
+		ambient := cfg&16 != 0 // the context passed into the dispatch already carries a span
 		n := 1 + x.Choose(maxDepth, "calls")
 		var hist []zc43Call
 		for i := 0; i < n; i++ {
@@ -679,7 +700,7 @@ func zc43Explore(t *testing.T, name string, maxDepth int, tpModes []int, globalP
 
 		prevCounts := map[string]int64{}
 		seenSpans := 0
-		units, escaped := zc43Run(s, hist, http, &cur, func(u *zc43Unit) {
+		units, escaped := zc43Run(s, hist, http, ambient, &cur, func(u *zc43Unit) {
 			u.spans = spy.spans[seenSpans:]
 			seenSpans = len(spy.spans)
 			now, _ := zc43Counts(reader)
@@ -740,7 +761,7 @@ func zc43Explore(t *testing.T, name string, maxDepth int, tpModes []int, globalP
 			// signature = transport : role of the unit : outcome of the call : what went wrong
 			// (call kind and trace-context variant are in the detail, not in the signature)
 			where := fmt.Sprintf("C43:%s:%s:%s", transport, u.Role, class)
-			desc := fmt.Sprintf("unit %d (%s %s of call %d %s, %s, tracestate=%v, tracing=%v, metrics=%v, global-propagator=%v; %d dispatch(es), %s)",
+			desc := fmt.Sprintf("unit %d (%s %s of call %d %s, %s, tracestate=%v, tracing=%v, metrics=%v, global-propagator=%v, ambient-span=%v; %d dispatch(es), %s)",
 				ui, transport, u.Role, u.Call, u.Kind.Name, zc43TPNames[call.TP], call.TState, tracing, metrics, globalProp, len(disp), class)
 			var so []string
 			if tracing {
